@@ -1,88 +1,137 @@
-(* C15 witnesses: `_refuted` statements (the pinned code violates the full statement) and
-   non-vacuity examples for the hypotheses of the theorems in Props.v.  All by vm_compute. *)
+(* C15 witnesses: `_refuted` statements and non-vacuity examples for the hypotheses of the theorems
+   in Props.v.  All by vm_compute.  Witnesses about cfg_snapshot / drain = false describe the
+   historical snapshot 75ee8d3 (repaired in /repo); the others describe /repo as it stands. *)
 From Coq Require Import ZArith List Bool Arith Lia.
 From PAFC15 Require Import Model Proofs1 Proofs2 Proofs3.
 Import ListNotations.
 
-(* ---------- a + (b + c) holds [b; c; a] ---------- *)
+(* ---------- historical: a + (b + c) held [b; c; a] ---------- *)
 Definition w_right_nested : expr := Add (Leaf 0 false) (Add (Leaf 1 false) (Leaf 2 false)).
-Example w_right_nested_value :
-  eval cfg_current w_right_nested = VComb KPlain [IPlain 1 false; IPlain 2 false; IPlain 0 false].
+Example w_right_nested_snapshot :
+  eval cfg_snapshot w_right_nested = VComb KPlain [IPlain 1 false; IPlain 2 false; IPlain 0 false].
 Proof. vm_compute. reflexivity. Qed.
+Lemma flatten_order_refuted : exists e, nofree e = true /\ eval (mkCfg false true true true true true) e <> spec_struct e.
+Proof. exists w_right_nested. split; [reflexivity|]. vm_compute. discriminate. Qed.
 
-Lemma flatten_order_refuted : exists e, eval (mkCfg false true true true) e <> spec_struct e.
-Proof. exists w_right_nested. vm_compute. discriminate. Qed.
-
-(* ---------- (a + b) + (c.with_model(m) + d) stays a plain sum with stale wrappers ---------- *)
+(* ---------- historical: (a + b) + (c.with_model(m) + d) stayed a plain sum ---------- *)
 Definition w_mixed : expr := Add (Add (Leaf 0 false) (Leaf 1 false)) (Add (Leaf 2 true) (Leaf 3 false)).
-Example w_mixed_value :
-  eval cfg_current w_mixed = VComb KPlain [IPlain 0 false; IPlain 1 false; IIdx 2 true 0; IIdx 3 false 1].
+Example w_mixed_snapshot :
+  eval cfg_snapshot w_mixed = VComb KPlain [IPlain 0 false; IPlain 1 false; IIdx 2 true 0; IIdx 3 false 1].
+Proof. vm_compute. reflexivity. Qed.
+Lemma flatten_models_refuted : exists e, nofree e = true /\ eval (mkCfg true false true true true true) e <> spec_struct e.
+Proof. exists w_mixed. split; [reflexivity|]. vm_compute. discriminate. Qed.
+
+Example guard_left_nested : guard cfg_snapshot (Add (Add (Leaf 0 false) (Leaf 1 true)) (Leaf 2 false)) = true.
+Proof. vm_compute. reflexivity. Qed.
+Example guard_excludes_right_nested : guard cfg_snapshot w_right_nested = false.
+Proof. vm_compute. reflexivity. Qed.
+Example guard_excludes_mixed : guard cfg_snapshot w_mixed = false.
+Proof. vm_compute. reflexivity. Qed.
+Example now_right_nested : eval cfg_now w_right_nested = VComb KPlain [IPlain 0 false; IPlain 1 false; IPlain 2 false].
+Proof. vm_compute. reflexivity. Qed.
+Example now_mixed :
+  eval cfg_now w_mixed = VComb KModel [IIdx 0 false 0; IIdx 1 false 1; IIdx 2 true 2; IIdx 3 false 3].
 Proof. vm_compute. reflexivity. Qed.
 
-Lemma flatten_models_refuted : exists e, eval (mkCfg true false true true) e <> spec_struct e.
-Proof. exists w_mixed. vm_compute. discriminate. Qed.
-
-(* the guard is not vacuous and really excludes the two witnesses *)
-Example guard_left_nested : guard cfg_current (Add (Add (Leaf 0 false) (Leaf 1 true)) (Leaf 2 false)) = true.
+(* ---------- /repo today: (a + b) + (c + d).with_free_parameters(p) is accepted silently ---------- *)
+Definition w_free_right : expr := Add (Add (Leaf 0 false) (Leaf 1 false)) (Free (Add (Leaf 2 false) (Leaf 3 false))).
+Example w_free_right_now :
+  eval cfg_now w_free_right = VComb KPlain [IPlain 0 false; IPlain 1 false; IIdx 2 false 0; IIdx 3 false 1].
 Proof. vm_compute. reflexivity. Qed.
-Example guard_excludes_right_nested : guard cfg_current w_right_nested = false.
-Proof. vm_compute. reflexivity. Qed.
-Example guard_excludes_mixed : guard cfg_current w_mixed = false.
-Proof. vm_compute. reflexivity. Qed.
-Example fixed_right_nested :
-  eval cfg_fixed w_right_nested = VComb KPlain [IPlain 0 false; IPlain 1 false; IPlain 2 false].
-Proof. vm_compute. reflexivity. Qed.
-Example fixed_mixed :
-  eval cfg_fixed w_mixed = VComb KModel [IIdx 0 false 0; IIdx 1 false 1; IIdx 2 true 2; IIdx 3 false 3].
+Lemma free_right_refuted : exists e, eval cfg_fixed e <> spec_struct e.
+Proof. exists w_free_right. vm_compute. discriminate. Qed.
+Example w_free_left_raises : eval cfg_now (Add (Free (Add (Leaf 2 false) (Leaf 3 false))) (Leaf 0 false)) = VErr.
 Proof. vm_compute. reflexivity. Qed.
 
-(* ---------- stale results after a raising evaluation of the pool ---------- *)
-(* analysis a maps x to a*x; analysis 1 raises on negative instances *)
+(* ---------- historical: stale results after a raising evaluation of the pool ---------- *)
+(* analysis a maps x to a*x; analysis 1 raises FitException on negative instances, analysis 10 raises
+   ValueError on -9; visualize of analysis 10 raises on 5 *)
 Definition w_ev (a : nat) (x : Z) : res :=
-  if (x <? 0)%Z && Nat.eqb a 1 then RExc else RVal (Z.of_nat a * x).
+  if (x <? 0)%Z && Nat.eqb a 1 then RExc 0 else if (x =? -9)%Z && Nat.eqb a 10 then RExc 1 else RVal (Z.of_nat a * x).
+Definition w_vis (a : nat) (x : Z) : res := if (x =? 5)%Z && Nat.eqb a 10 then RExc 1 else RVal 0.
 Definition w_l : list nat := [1; 10; 100].
 Definition w_ops : list (op (X := Z)) := [OCores 3; OEval 2%Z []; OEval (-7)%Z []; OEval 2%Z []; OEval 3%Z []].
 
-Example w_pinned_answers :
-  snd (run w_ev false w_l st_init w_ops) = [Some (RVal 222); Some RExc; Some (RVal (-768)); Some (RVal 223)].
+Example w_snapshot_answers :
+  map out_ans (snd (run w_ev w_vis false false w_l st_init w_ops))
+  = [Some (RVal 222); Some (RExc 0); Some (RVal (-768)); Some (RVal 223)].
 Proof. vm_compute. reflexivity. Qed.
-Example w_repaired_answers :
-  snd (run w_ev true w_l st_init w_ops) = [Some (RVal 222); Some RExc; Some (RVal 222); Some (RVal 333)].
+Example w_now_answers :
+  map out_ans (snd (run w_ev w_vis true true w_l st_init w_ops))
+  = [Some (RVal 222); Some (RExc 0); Some (RVal 222); Some (RVal 333)].
 Proof. vm_compute. reflexivity. Qed.
 
 Lemma history_free_refuted :
   exists (l : list nat) (ops : list (op (X := Z))),
-    snd (run w_ev false l st_init ops) <> map (fun x => Some (spec_sum w_ev l x)) (evals ops).
-Proof. exists w_l, w_ops. vm_compute. discriminate. Qed.
+    ~ Forall2 (out_ok w_ev w_vis l) (calls ops) (snd (run w_ev w_vis false false l st_init ops)).
+Proof.
+  exists w_l, w_ops. intro H. vm_compute in H.
+  inversion H as [|a b la lb H1 H2]; subst. inversion H2 as [|a' b' la' lb' H3 H4]; subst.
+  inversion H4 as [|a2 b2 la2 lb2 H5 H6]; subst. vm_compute in H5. discriminate.
+Qed.
 
-(* the guarantee of the partial theorem on this history: everything up to the raising evaluation *)
 Example w_guarded :
-  guarded w_ev false w_l 1 false w_ops = [Some (RVal 222); Some RExc; None; None].
+  map fst (guarded w_ev w_vis false w_l 1 false false w_ops) = [false; false; true; true].
 Proof. vm_compute. reflexivity. Qed.
 
-(* a schedule that withholds results: same answer (non-vacuity of "for every schedule") *)
+(* ---------- /repo today: schedules, visualize through the pool, exception classes ---------- *)
+(* a schedule that withholds results: same answer *)
 Example w_withheld :
-  snd (run w_ev false w_l st_init [OCores 2; OEval 2%Z [[false; true]; [false; false]; [true; false]]])
+  map out_ans (snd (run w_ev w_vis true true w_l st_init [OCores 2; OEval 2%Z [[false; true]; [false; false]; [true; false]]]))
   = [Some (RVal 222)].
+Proof. vm_compute. reflexivity. Qed.
+(* two analyses raise different classes on -9: the schedule decides which one the pool raises *)
+Example w_two_classes_first : map out_ans (snd (run w_ev w_vis true true w_l st_init [OCores 3; OEval (-9)%Z []])) = [Some (RExc 0)].
+Proof. vm_compute. reflexivity. Qed.
+Example w_two_classes_second :
+  map out_ans (snd (run w_ev w_vis true true w_l st_init [OCores 3; OEval (-9)%Z [[false; true; true]]])) = [Some (RExc 1)].
+Proof. vm_compute. reflexivity. Qed.
+Example w_two_classes_serial : serial w_ev w_l (-9)%Z = RExc 0.
+Proof. vm_compute. reflexivity. Qed.
+Example w_not_uniform : ~ uniform w_ev w_l (-9)%Z.
+Proof. intro U. specialize (U 1 10 0 1 (or_introl eq_refl) (or_intror (or_introl eq_refl)) eq_refl eq_refl). discriminate. Qed.
+Example w_uniform : uniform w_ev w_l (-7)%Z.
+Proof.
+  intros a b k k' Ha Hb. simpl in Ha, Hb.
+  destruct Ha as [Ha|[Ha|[Ha|[]]]], Hb as [Hb|[Hb|[Hb|[]]]]; subst; vm_compute; congruence.
+Qed.
+(* visualize through a pool that was kept after n_cores went back to 1, one analysis raising;
+   the evaluation that follows is not disturbed *)
+Example w_map_history :
+  snd (run w_ev w_vis true true w_l st_init [OCores 2; OCores 1; OMap 5%Z [[false; true]]; OEval 2%Z []; OMap 2%Z []])
+  = [OutMap (Some (RExc 1)) [(0, 1); (2, 100)]; OutAns (Some (RVal 222)); OutMap (Some (RVal 0)) [(0, 1); (1, 10); (2, 100)]].
 Proof. vm_compute. reflexivity. Qed.
 
 (* 5 analyses on 4 cores: the fourth process holds nothing, the sum is complete *)
 Example w_partition : split_procs 4 [1; 2; 3; 4; 5] = [[1; 2]; [3; 4]; [5]; []].
 Proof. vm_compute. reflexivity. Qed.
 
-(* ---------- folders through the pool ---------- *)
-Lemma folders_refuted : exists (l : list nat) (cores : nat), folders cfg_current cores l <> folders_serial l.
+(* ---------- historical: folders through the pool ---------- *)
+Lemma folders_refuted : exists (l : list nat) (cores : nat), folders false cores l <> folders_serial l.
 Proof. exists [0; 1; 2], 2. vm_compute. discriminate. Qed.
-Example w_folders_pinned : folders cfg_current 2 [0; 1; 2] = [(0, 0); (0, 1); (1, 2)].
+Example w_folders_snapshot : folders false 2 [0; 1; 2] = [(0, 0); (0, 1); (1, 2)].
 Proof. vm_compute. reflexivity. Qed.
 Example w_folders_partial_hyp : length [0; 1; 2] <= 3.
 Proof. simpl. lia. Qed.
 
 (* ---------- free parameters ---------- *)
-(* model with priors 0,1,0 along its paths, prior 1 free, three analyses: 3 * 1 + 1 parameters *)
 Example w_free_count : prior_count (modify_free [1; 9] 3 [0; 1; 0]) = 4.
 Proof. vm_compute. reflexivity. Qed.
 Example w_free_classes : classes (modify_free [1; 9] 3 [0; 1; 0]) = [[0; 1; 0]; [0; 2; 0]; [0; 3; 0]].
 Proof. vm_compute. reflexivity. Qed.
 Example w_free_formula : length (free_in [1; 9] [0; 1; 0]) * 3 + length (shared_in [1; 9] [0; 1; 0]) = 4.
 Proof. vm_compute. reflexivity. Qed.
+(* /repo today: free parameters over a sum whose first analysis has its own model [3;1;4] drop that model *)
+Definition w_free_own_items := [IIdx 0 true 0; IIdx 1 false 1].
+Example w_free_own_now :
+  fitted_models cfg_now KFree w_free_own_items [0; 1; 2] [[3; 1; 4]] [1]
+  = [[Orig 0; Fresh 0 1; Orig 2]; [Orig 0; Fresh 1 1; Orig 2]].
+Proof. vm_compute. reflexivity. Qed.
+Example w_free_own_repaired :
+  fitted_models cfg_fixed KFree w_free_own_items [0; 1; 2] [[3; 1; 4]] [1]
+  = [[Orig 3; Fresh 0 1; Orig 4]; [Orig 0; Fresh 1 1; Orig 2]].
+Proof. vm_compute. reflexivity. Qed.
+Lemma free_own_refuted :
+  exists its default own free,
+    fitted_models cfg_now KFree its default own free <> modify_free_own free default own its.
+Proof. exists w_free_own_items, [0; 1; 2], [[3; 1; 4]], [1]. vm_compute. discriminate. Qed.
